@@ -39,8 +39,12 @@ func (d *RouteDef) Validate() error {
 	if d.Dst == "" {
 		return errInvalidTarget
 	}
-	if _, err := url.Parse(d.Dst); err != nil {
+	u, err := url.Parse(d.Dst)
+	if err != nil {
 		return fmt.Errorf("route: invalid target. %s", err)
+	}
+	if u.String() == "" {
+		return errInvalidTarget
 	}
 	_, path := hostpath(d.Src)
 	if _, err := glob.Compile(path); err != nil {
